@@ -236,5 +236,17 @@ pub fn cmd_codec(args: &[String]) {
             }
         }
     }
+    // raw constructors: with_data keeps the bytes and starts from an all-zero tag; with_data_and_mac keeps both
+    for len in [0usize, 1, 16, 17, 255, 4097] {
+        let body = rng.bytes(len);
+        rep.evaluations += 1;
+        let b: dryoc::dryocsecretbox::VecBox = dryoc::dryocsecretbox::DryocSecretBox::with_data(&body);
+        let (t, d) = b.into_parts();
+        if d != body || t.as_slice() != [0u8; 16] { rep.fail("DryocSecretBox::with_data: into_parts does not return (zero tag, the bytes)", json!({"len": len})); }
+        let mac: [u8; 16] = rng.arr();
+        let b: dryoc::dryocsecretbox::VecBox = dryoc::dryocsecretbox::DryocSecretBox::with_data_and_mac(dryoc::types::StackByteArray::from(&mac), &body);
+        let wire = b.to_vec();
+        if wire != [&mac[..], &body[..]].concat() { rep.fail("DryocSecretBox::with_data_and_mac: to_vec is not tag || data", json!({"len": len})); }
+    }
     rep.write(&args[1]);
 }
